@@ -311,9 +311,16 @@ CLAIMS.update({
 
 # sentences added after the first version of each claim (uniform "spec holds of the model" theorems, extensions)
 EXTRA = {
-    "C01": " Counter-vector children are covered too: `C vec` scenarios on a real IntCounterVec (racing first requests, preemption between read-unlock "
+    "C01": " c01_spec_of_validated_int: for ALL traces accepted by the validator inside the executable domain spec_c01 is true (no bound on the "
+           "number of calls); float flavour: every clause except read-subset (c01_spec_of_validated_float_partial). Counter-vector children are covered too: `C vec` scenarios on a real IntCounterVec (racing first requests, preemption between read-unlock "
            "and write-lock) are validated by C10's vector model and judged by spec_c01_vec (every completed increment visible in a later collection, "
            "exactly once); the theorems used there are C10's, re-exported as c01_vec_child_*. Local flushes include tiny amounts (1e-17, subnormals).",
+    "C11": " c11_spec_of_validated_int: for ALL traces accepted by the validator inside the executable domain the executable spec (linearisation "
+           "search proved complete with its own fuel, read-subset derived from it) is true; float flavour: every clause except the redundant "
+           "read-subset clause (c11_spec_of_validated_float_partial).",
+    "C10": " c10_relaxed_spec_of_validated_partial: on every validated trace in the executable domain the relaxed spec's clauses 'every call "
+           "returned', result kinds, no duplicate keys and removed/reset keys not collected hold (value-decoding clauses and search completeness "
+           "are not proved; they are evaluated on every run).",
     "C02": " c02_spec_of_validated: for ALL traces, accepted by the validator and inside the executable domain (values +-2^k with distinct exponents "
            "< 53, sorted bounds) implies the executable spec written from the property text is true - the oracle cannot raise an alarm on a trace the "
            "model accepts (subset sums of such values decode uniquely: c02_decode_unique).",
